@@ -32,6 +32,7 @@ import (
 	"io"
 	"os"
 	"path/filepath"
+	"runtime"
 	"runtime/debug"
 	"runtime/metrics"
 	"sort"
@@ -55,6 +56,7 @@ const (
 	c09MaxValLen  = 400
 	c09HugeAlloc  = 128 << 20 // bytes allocated by ONE api call = failure
 	c09GuardVLen  = 32 << 20  // once the huge-allocation finding is recorded, value reads believing more than this are skipped
+	c09FixedTs    = 1790000000
 )
 
 // ---------------------------------------------------------------- configuration
@@ -77,7 +79,7 @@ func (c c09Cfg) opts(ver int) *store.Options {
 		WithCompressionFormat(c.Comp).WithMaxTxEntries(c09MaxEntries).WithMaxKeyLen(c09MaxKeyLen).
 		WithMaxValueLen(c09MaxValLen).WithMultiIndexing(true).WithLogger(quietLogger()).
 		WithWriteBufferSize(1 << 13).WithIndexOptions(idx).WithAHTOptions(aht).WithMaxActiveTransactions(8).WithMaxWaitees(8).
-		WithTimeFunc(func() time.Time { return time.Unix(1790000000, 0) }) // deterministic record bytes (replays)
+		WithTimeFunc(func() time.Time { return time.Unix(c09FixedTs, 0) }) // deterministic record bytes (replays)
 }
 
 // c09Variant: HOW an (altered) copy is opened and read. The caches are run-time options (nothing of them is
@@ -269,6 +271,8 @@ type c09Tx struct {
 	Fields  []c09Field
 	Entries []c09Entry
 	Summary string // canonical full record (same format as the Lean driver)
+	Hdr     c09Hdr   // raw header fields (re-serialisation, c09restruct.go)
+	Alh     [32]byte // the committed trailing Alh
 }
 
 type c09Store struct {
@@ -281,6 +285,9 @@ type c09Store struct {
 	base    *c09Obs
 	txLogSz int64
 	vRanges []c09VRange
+	// what the harness handed to Set / WithMetadata / Commit, per transaction (ground truth recorded at commit time)
+	committed  []c09CommitTx
+	txLogBytes []byte // pristine logical tx log
 }
 
 type c09VRange struct {
@@ -334,7 +341,7 @@ func c09Covered(tx *store.Tx) string {
 		h.Version, hx.Hex(txmdBytes(h.Metadata)), h.NEntries, hx.Hex(h.Eh[:]))
 	for _, e := range tx.Entries() {
 		hv := e.HVal()
-		fmt.Fprintf(&sb, "%s,%s,%s;", hx.Hex(mdBytes(e.Metadata())), hx.Hex(e.Key()), hx.Hex(hv[:]))
+		fmt.Fprintf(&sb, "%s,%s,%s;", c09MdStr(e.Metadata()), hx.Hex(e.Key()), hx.Hex(hv[:]))
 	}
 	sb.WriteString("|" + hx.Hex(alh[:]))
 	return sb.String()
@@ -394,20 +401,23 @@ func c09Layout(h *store.TxHeader, es []c09Entry, alh [32]byte) ([]byte, []c09Fie
 
 // ---------------------------------------------------------------- building the pristine store
 
-func c09Build(rng *hx.Rng, cfg c09Cfg, dir string) (uint64, [][]byte, error) {
+func c09Build(rng *hx.Rng, cfg c09Cfg, dir string) (uint64, [][]byte, []c09CommitTx, error) {
 	ctx := context.Background()
 	keyPool := [][]byte{[]byte("k0"), []byte("key-1"), []byte("k2-longer-key-xx"), {0x00, 0xff, 0x01}, []byte("k4"), []byte("k5")}
 	n := uint64(0)
+	var committed []c09CommitTx
+	g := newC09Grinder()
+	defer g.close()
 	nV0 := cfg.NTx / 3
 	for phase := 0; phase < 2; phase++ {
 		ver := phase
 		st, err := store.Open(dir, cfg.opts(ver))
 		if err != nil {
-			return 0, nil, err
+			return 0, nil, nil, err
 		}
 		if err := st.InitIndexing(&store.IndexSpec{}); err != nil {
 			st.Close()
-			return 0, nil, err
+			return 0, nil, nil, err
 		}
 		cnt := nV0
 		if phase == 1 {
@@ -417,12 +427,15 @@ func c09Build(rng *hx.Rng, cfg c09Cfg, dir string) (uint64, [][]byte, error) {
 			tx, err := st.NewWriteOnlyTx(ctx)
 			if err != nil {
 				st.Close()
-				return 0, nil, err
+				return 0, nil, nil, err
 			}
 			ne := 1 + rng.Intn(4)
 			if k == 0 {
 				ne = c09MaxEntries
 			}
+			ctx0 := c09CommitTx{Version: ver}
+			var pend []c09Pending
+			var txmd *store.TxMetadata
 			perm := rng.Intn(len(keyPool))
 			for e := 0; e < ne; e++ {
 				key := keyPool[(perm+e)%len(keyPool)]
@@ -458,10 +471,7 @@ func c09Build(rng *hx.Rng, cfg c09Cfg, dir string) (uint64, [][]byte, error) {
 				default:
 					val = []byte(fmt.Sprintf("value-%d-%d-%s", n+1, e, strings.Repeat("v", rng.Intn(40))))
 				}
-				if err := tx.Set(key, md, val); err != nil {
-					st.Close()
-					return 0, nil, err
-				}
+				pend = append(pend, c09Pending{key: key, md: md, val: val})
 			}
 			if ver == 1 && k == 1 {
 				// boundary: the largest tx metadata the writer accepts (truncatedUptoTx + 256-byte extra = maxTxMetadataLen)
@@ -469,28 +479,53 @@ func c09Build(rng *hx.Rng, cfg c09Cfg, dir string) (uint64, [][]byte, error) {
 				md.WithTruncatedTxID(1)
 				if err := md.WithExtra(rng.Bytes(256)); err != nil {
 					st.Close()
-					return 0, nil, err
+					return 0, nil, nil, err
 				}
-				tx.WithMetadata(md)
+				txmd = md
 			} else if ver == 1 {
 				switch rng.Intn(4) {
 				case 0:
 					md := store.NewTxMetadata()
 					md.WithExtra(rng.Bytes(1 + rng.Intn(12)))
-					tx.WithMetadata(md)
+					txmd = md
 				case 1:
 					md := store.NewTxMetadata()
 					md.WithTruncatedTxID(uint64(1 + rng.Intn(3)))
 					if rng.Bool() {
 						md.WithExtra([]byte("x"))
 					}
-					tx.WithMetadata(md)
+					txmd = md
 				}
 			}
-			if _, err := tx.AsyncCommit(ctx); err != nil {
-				st.Close()
-				return 0, nil, fmt.Errorf("commit: %w", err)
+			// every other transaction: content chosen so that the record can grow by one byte inside its committed extent
+			// (its Alh ends with the byte that follows it: 0x00, the top byte of the next tx id), see c09Grinder
+			if (n+1)%2 == 1 {
+				ctx0.Ground = g.grind(ver, txmd, pend, 0x00)
 			}
+			pred, pok := g.predict(ver, txmd, pend)
+			for _, p := range pend {
+				if err := tx.Set(p.key, p.md, p.val); err != nil {
+					st.Close()
+					return 0, nil, nil, err
+				}
+				ctx0.Entries = append(ctx0.Entries, c09CommitEntryOf(p.key, p.md, p.val))
+			}
+			if txmd != nil {
+				tx.WithMetadata(txmd)
+				ctx0.TxMd = append([]byte{}, txmd.Bytes()...)
+			}
+			hdr, err := tx.AsyncCommit(ctx)
+			if err != nil {
+				st.Close()
+				return 0, nil, nil, fmt.Errorf("commit: %w", err)
+			}
+			alh, _ := safeAlh(hdr)
+			ctx0.Predicted = pok && pred == alh
+			if !ctx0.Predicted && os.Getenv("C09_DEBUG") != "" {
+				fmt.Fprintf(os.Stderr, "alh of tx %d (v%d, txmd=%v, ground=%v) not predicted (pok=%v): blTxID=%d\n", n+1, ver, txmd != nil, ctx0.Ground, pok, hdr.BlTxID)
+			}
+			g.done(alh)
+			committed = append(committed, ctx0)
 			n++
 		}
 		wctx, cancel := context.WithTimeout(ctx, 20*time.Second)
@@ -498,13 +533,13 @@ func c09Build(rng *hx.Rng, cfg c09Cfg, dir string) (uint64, [][]byte, error) {
 		cancel()
 		if err != nil {
 			st.Close()
-			return 0, nil, fmt.Errorf("indexing: %w", err)
+			return 0, nil, nil, fmt.Errorf("indexing: %w", err)
 		}
 		if err := st.Close(); err != nil {
-			return 0, nil, err
+			return 0, nil, nil, err
 		}
 	}
-	return n, keyPool, nil
+	return n, keyPool, committed, nil
 }
 
 // ---------------------------------------------------------------- the probe (used for ground truth AND for every copy)
@@ -592,6 +627,15 @@ func c09ErrClass(err error) string {
 	return "other"
 }
 
+// c09SlowCall: threshold of the C09_DEBUG "slow call" trace (C09_SLOW_MS, default 2000 ms).
+func c09SlowCall() time.Duration {
+	ms := 2000
+	if v := os.Getenv("C09_SLOW_MS"); v != "" {
+		fmt.Sscanf(v, "%d", &ms)
+	}
+	return time.Duration(ms) * time.Millisecond
+}
+
 func (o *c09Obs) call(api, key string, f func(res *c09Res) (string, error)) *c09Res {
 	res := &c09Res{API: api}
 	o.last.Store(key)
@@ -602,8 +646,8 @@ func (o *c09Obs) call(api, key string, f func(res *c09Res) (string, error)) *c09
 	a0 := c09Allocs()
 	t0 := time.Now()
 	defer func() {
-		if d := time.Since(t0); d > 2*time.Second && os.Getenv("C09_DEBUG") != "" {
-			fmt.Fprintf(os.Stderr, "slow call %s: %v alloc=%dMiB err=%s\n", key, d, res.Alloc>>20, res.Err)
+		if d := time.Since(t0); os.Getenv("C09_DEBUG") != "" && d > c09SlowCall() {
+			fmt.Fprintf(os.Stderr, "slow call %s: %v alloc=%dMiB err=%s vlen=%d\n", key, d, res.Alloc>>20, res.Err, res.VLen)
 		}
 	}()
 	func() {
@@ -643,6 +687,13 @@ type c09Plan struct {
 	// after the ExportTx deadlock has been confirmed once, do not call ExportTx again on an instance whose ExportTx failed
 	noExportAfterErr bool
 	pv               c09Variant
+	// compressed value logs, after the huge-allocation finding has been exercised c09MaxHugeComp times in this run: do not
+	// read values of a transaction one of whose entries states a LARGER vLen than committed (multiapp.ReadAt continues
+	// after the short read at an offset inside the compressed blob) or another vOff (a length prefix is read from arbitrary
+	// bytes): singleapp.ReadAt allocates whatever the 4 bytes there say - gigabytes, a minute per call on a busy machine
+	skipGrown bool
+	pristVLen map[uint64][]int
+	pristVOff map[uint64][]int64
 }
 
 // Call keys: "<API>[!skip][#<pass>]:<args>". "!skip" marks a LENIENT call (skipIntegrityCheck=true): its answer is not
@@ -702,6 +753,30 @@ func c09Probe(o *c09Obs, dir string, cfg c09Cfg, plan c09Plan) *c09Obs {
 	})
 	tx := store.NewTx(st.MaxTxEntries(), st.MaxKeyLen())
 	ltx := store.NewTx(st.MaxTxEntries(), st.MaxKeyLen()) // holder of the lenient reads (the checked holder keeps its entries)
+	grown := map[uint64]bool{}
+	if plan.skipGrown {
+		for id := uint64(1); id <= plan.n; id++ {
+			txid := id
+			o.call("ReadTx!skip", fmt.Sprintf("ReadTx!skip#g:%d", txid), func(*c09Res) (string, error) {
+				if err := st.ReadTx(txid, true, ltx); err != nil {
+					return "", err
+				}
+				pv, po := plan.pristVLen[txid], plan.pristVOff[txid]
+				for i, e := range ltx.Entries() {
+					if i >= len(pv) || e.VLen() > pv[i] || (e.VLen() > 0 && e.VOff() != po[i]) {
+						grown[txid] = true
+					}
+				}
+				return "ok", nil
+			})
+		}
+	}
+	skipGrown := func(api, key string, id uint64) bool {
+		if grown[id] {
+			o.put(key, &c09Res{API: api, Err: "skipped-relocated-value-compressed"})
+		}
+		return grown[id]
+	}
 	firstBad := uint64(0)
 	maxVLen := map[uint64]int{}
 	exportFailed := false
@@ -723,6 +798,9 @@ func c09Probe(o *c09Obs, dir string, cfg c09Cfg, plan c09Plan) *c09Obs {
 				return "ok", nil
 			})
 		}
+		if skipGrown("ExportTx!skip", fmt.Sprintf("ExportTx!skip:%d", id), id) {
+			return
+		}
 		rr := o.call("ExportTx!skip", fmt.Sprintf("ExportTx!skip:%d", id), func(res *c09Res) (string, error) {
 			b, err := st.ExportTx(id, false, true, ltx)
 			if err != nil {
@@ -734,7 +812,10 @@ func c09Probe(o *c09Obs, dir string, cfg c09Cfg, plan c09Plan) *c09Obs {
 			exportFailed = true
 		}
 	}
-	readValueOf := func(api, key string, e *store.TxEntry) {
+	readValueOf := func(api, key string, id uint64, e *store.TxEntry) {
+		if skipGrown(api, key, id) {
+			return
+		}
 		if plan.skipHuge && e.VLen() > c09GuardVLen {
 			o.put(key, &c09Res{API: api, Err: "skipped-huge-vlen", VLen: e.VLen()})
 			return
@@ -770,7 +851,7 @@ func c09Probe(o *c09Obs, dir string, cfg c09Cfg, plan c09Plan) *c09Obs {
 		// ReadValue is integrity-checked whatever the origin of the entry (this is how pkg/database reads with
 		// skipIntegrityCheck: ReadTxEntry(…, true) then ReadValue): error, or the pristine value of that entry
 		for i, e := range entries {
-			readValueOf("ReadValue#L", fmt.Sprintf("ReadValue#L:%d:%d", id, i), e)
+			readValueOf("ReadValue#L", fmt.Sprintf("ReadValue#L:%d:%d", id, i), id, e)
 		}
 		o.call("ReadTxHeader!skip", fmt.Sprintf("ReadTxHeader!skip:%d", id), func(*c09Res) (string, error) {
 			_, err := st.ReadTxHeader(id, false, true)
@@ -788,7 +869,7 @@ func c09Probe(o *c09Obs, dir string, cfg c09Cfg, plan c09Plan) *c09Obs {
 				return "ok", err
 			})
 			if rr.Err == "" && rr.Panic == "" && ent != nil {
-				readValueOf("ReadValue#E", fmt.Sprintf("ReadValue#E:%d:%s", id, hx.Hex(key)), ent)
+				readValueOf("ReadValue#E", fmt.Sprintf("ReadValue#E:%d:%s", id, hx.Hex(key)), id, ent)
 			}
 		}
 	}
@@ -825,7 +906,7 @@ func c09Probe(o *c09Obs, dir string, cfg c09Cfg, plan c09Plan) *c09Obs {
 			entries := checkedTx(id, "")
 			// values of the entries as THIS store sees them
 			for i, e := range entries {
-				readValueOf("ReadValue", fmt.Sprintf("ReadValue:%d:%d", id, i), e)
+				readValueOf("ReadValue", fmt.Sprintf("ReadValue:%d:%d", id, i), id, e)
 			}
 			maxV := 0
 			for _, e := range entries {
@@ -838,7 +919,7 @@ func c09Probe(o *c09Obs, dir string, cfg c09Cfg, plan c09Plan) *c09Obs {
 				// checked reads (above) - lenient accesses - the same checked reads again
 				lenient(id)
 				for i, e := range checkedTx(id, "#2") {
-					readValueOf("ReadValue#2", fmt.Sprintf("ReadValue#2:%d:%d", id, i), e)
+					readValueOf("ReadValue#2", fmt.Sprintf("ReadValue#2:%d:%d", id, i), id, e)
 				}
 			}
 			o.call("ReadTxHeader", fmt.Sprintf("ReadTxHeader:%d", id), func(*c09Res) (string, error) {
@@ -863,7 +944,7 @@ func c09Probe(o *c09Obs, dir string, cfg c09Cfg, plan c09Plan) *c09Obs {
 						return "", err
 					}
 					hv := e.HVal()
-					return fmt.Sprintf("%s,%s,%s|%s", hx.Hex(mdBytes(e.Metadata())), hx.Hex(e.Key()), hx.Hex(hv[:]), c09HdrStr(h)), nil
+					return fmt.Sprintf("%s,%s,%s|%s", c09MdStr(e.Metadata()), hx.Hex(e.Key()), hx.Hex(hv[:]), c09HdrStr(h)), nil
 				})
 			}
 		}
@@ -961,12 +1042,15 @@ func c09Probe(o *c09Obs, dir string, cfg c09Cfg, plan c09Plan) *c09Obs {
 				if plan.skipHuge && res.VLen > c09GuardVLen {
 					return "", errors.New("skipped-huge-vlen")
 				}
+				if grown[vr.Tx()] {
+					return "", errors.New("skipped-relocated-value-compressed")
+				}
 				v, err := vr.Resolve()
 				if err != nil {
 					return "", err
 				}
 				hv := vr.HVal()
-				return fmt.Sprintf("%d|%s|%s|%s", vr.Tx(), hx.Hex(v), hx.Hex(mdBytes(vr.KVMetadata())), hx.Hex(hv[:])), nil
+				return fmt.Sprintf("%d|%s|%s|%s", vr.Tx(), hx.Hex(v), c09MdStr(vr.KVMetadata()), hx.Hex(hv[:])), nil
 			})
 		}
 	}
@@ -979,6 +1063,9 @@ func c09Probe(o *c09Obs, dir string, cfg c09Cfg, plan c09Plan) *c09Obs {
 			}
 			if exportFailed && plan.noExportAfterErr {
 				o.put(fmt.Sprintf("ExportTx:%d", id), &c09Res{API: "ExportTx", Err: "skipped-after-export-error"})
+				continue
+			}
+			if skipGrown("ExportTx", fmt.Sprintf("ExportTx:%d", id), id) {
 				continue
 			}
 			rr := o.call("ExportTx", fmt.Sprintf("ExportTx:%d", id), func(res *c09Res) (string, error) {
@@ -1024,8 +1111,17 @@ func c09Probe(o *c09Obs, dir string, cfg c09Cfg, plan c09Plan) *c09Obs {
 	return o
 }
 
-// c09ProbeTimed runs the probe under a watchdog: a call that does not return within `stall` is a hang
-// (the goroutine is abandoned, its observation is not read).
+// c09ProbeTimed runs the probe under a watchdog. Wall-clock (and CPU-share) bounds are load dependent: a call that
+// allocates and clears gigabytes (compressed value logs: `make([]byte, clen)` with an arbitrary length prefix) takes a
+// minute on a busy machine and is NOT a hang. A hang is reported only for
+//   (a) a DEADLOCK: no call returned for `stall`, and then for a confirmation window of c09Confirm every goroutine
+//       that is inside immudb code is parked (mutex / semaphore / channel / select / sleep) with the probe goroutine
+//       sitting on the same frames all the time — a parked goroutine needs no CPU, so this does not depend on the load; or
+//   (b) NON-TERMINATION: the call is still busy after the process has burnt c09HardCapCPU of CPU time since the call
+//       began (a CPU budget does not shrink when other jobs take the cores; a call that clears 3.4 GiB needs 1-2 CPU
+//       minutes), or after c09HardCapWall of wall-clock time as a backstop.
+// A call that exceeded `stall` but returned is counted (c09SlowCalls -> evidence), not failed. On a hang the goroutine
+// is abandoned, its observation is not read.
 func c09ProbeTimed(dir string, cfg c09Cfg, plan c09Plan, stall time.Duration) (*c09Obs, string) {
 	o := &c09Obs{m: map[string]*c09Res{}}
 	o.last.Store("Open")
@@ -1036,26 +1132,45 @@ func c09ProbeTimed(dir string, cfg c09Cfg, plan c09Plan, stall time.Duration) (*
 	}()
 	seen := o.seq.Load()
 	lastMove := time.Now()
-	began := lastMove
-	cpu0 := c09CPU()
+	cpuAtMove := c09CPU()
+	var lastSample, parkedSince time.Time
+	parkedSig := ""
+	slow := false
 	tick := time.NewTicker(50 * time.Millisecond)
 	defer tick.Stop()
 	for {
 		select {
 		case <-done:
+			if slow {
+				c09SlowCalls++
+			}
 			return o, ""
 		case <-tick.C:
 			if cur := o.seq.Load(); cur != seen {
-				seen, lastMove, began, cpu0 = cur, time.Now(), time.Now(), c09CPU()
+				if slow {
+					c09SlowCalls++
+				}
+				seen, lastMove, parkedSince, parkedSig, slow = cur, time.Now(), time.Time{}, "", false
+				cpuAtMove = c09CPU()
 				continue
 			}
-			if time.Since(lastMove) <= stall {
+			idle := time.Since(lastMove)
+			if idle <= stall || time.Since(lastSample) < time.Second {
 				continue
 			}
-			// No call returned for `stall`. A deadlocked call burns no CPU; a call that is merely slow (page
-			// faults of a multi-GiB allocation on a loaded machine) does: extend, up to a hard cap.
-			if used := c09CPU() - cpu0; used > time.Since(lastMove)/4 && time.Since(began) < 12*stall {
-				lastMove, cpu0 = time.Now(), c09CPU()
+			lastSample = time.Now()
+			slow = true
+			hung := idle > c09HardCapWall || c09CPU()-cpuAtMove > c09HardCapCPU
+			if busy, sig := c09ImmudbGoroutines(); busy == 0 && sig != "" {
+				if sig == parkedSig && !parkedSince.IsZero() {
+					hung = hung || time.Since(parkedSince) >= c09Confirm
+				} else {
+					parkedSig, parkedSince = sig, time.Now()
+				}
+			} else {
+				parkedSig, parkedSince = "", time.Time{}
+			}
+			if !hung {
 				continue
 			}
 			// the goroutine is abandoned inside the hung call; hand out a snapshot of what completed
@@ -1069,6 +1184,63 @@ func c09ProbeTimed(dir string, cfg c09Cfg, plan c09Plan, stall time.Duration) (*
 			return snap, o.last.Load().(string)
 		}
 	}
+}
+
+const (
+	c09Confirm = 20 * time.Second // a deadlock verdict needs every immudb goroutine parked for this long
+	// a call still busy after this much CPU time of the process (or this much wall-clock time) is reported as not terminating
+	c09HardCapCPU  = 15 * time.Minute
+	c09HardCapWall = 60 * time.Minute
+)
+
+// calls that exceeded the stall bound but returned (reported in the evidence, not failures)
+var c09SlowCalls int
+
+// c09ImmudbGoroutines looks at the stacks of all goroutines that are inside immudb code: how many of them are NOT
+// parked, and the frames of the probe goroutine ("" if it is not inside immudb code).
+func c09ImmudbGoroutines() (busy int, probeSig string) {
+	buf := make([]byte, 4<<20)
+	buf = buf[:runtime.Stack(buf, true)]
+	parked := []string{"sync.Mutex.Lock", "sync.RWMutex", "semacquire", "chan receive", "chan send", "select", "sync.Cond.Wait",
+		"sync.WaitGroup.Wait", "sleep", "IO wait"}
+	for _, g := range strings.Split(string(buf), "\n\n") {
+		if !strings.Contains(g, "github.com/codenotary/immudb/") || !strings.HasPrefix(g, "goroutine ") {
+			continue
+		}
+		hdr := g
+		if k := strings.Index(g, "\n"); k >= 0 {
+			hdr = g[:k]
+		}
+		state := ""
+		if a, b := strings.Index(hdr, "["), strings.LastIndex(hdr, "]"); a >= 0 && b > a {
+			state = hdr[a+1 : b]
+			if c := strings.Index(state, ","); c >= 0 {
+				state = state[:c]
+			}
+		}
+		isParked := false
+		for _, p := range parked {
+			if strings.HasPrefix(state, p) {
+				isParked = true
+			}
+		}
+		if !isParked {
+			busy++
+		}
+		if strings.Contains(g, "main.c09Probe") {
+			var fr []string
+			for _, l := range strings.Split(g, "\n")[1:] {
+				if !strings.HasPrefix(l, "\t") {
+					if k := strings.LastIndex(l, "("); k > 0 {
+						l = l[:k]
+					}
+					fr = append(fr, l)
+				}
+			}
+			probeSig = state + "|" + strings.Join(fr, "|")
+		}
+	}
+	return
 }
 
 // c09CPU: user+system CPU time consumed by this process so far.
@@ -1121,6 +1293,11 @@ type c09Mut struct {
 	Tx      int        `json:"tx"`    // record hit (0 = none / value log)
 	Field   string     `json:"field"` // field hit
 	Patches []c09Patch `json:"patches"`
+	// structure-aware alterations (c09restruct.go): exploration class, what happens behind the record, and the altered
+	// content (entries as the altered bytes encode them) for the digest-function tie
+	Class string     `json:"class,omitempty"`
+	Tail  string     `json:"tail,omitempty"`
+	Alt   *c09AltRec `json:"alt,omitempty"`
 }
 
 func (s *c09Store) logFor(dir, name string) (*c09Log, error) {
@@ -1149,6 +1326,9 @@ func (s *c09Store) apply(dir string, m c09Mut) error {
 				c, pos = int(p.Off/int64(s.cfg.FileSize)), p.Off%int64(s.cfg.FileSize)+int64(i)
 			}
 			nb := p.Bytes[i]
+			if !p.Xor && p.Log == "tx" && c == len(l.chunks)-1 && pos == l.chunks[c].n && pos < int64(s.cfg.FileSize) {
+				l.chunks[c].n++ // a record re-serialised longer than the last committed one extends the log
+			}
 			if p.Xor {
 				if c < 0 || c >= len(l.chunks) || pos >= l.chunks[c].n {
 					return fmt.Errorf("xor outside data")
@@ -1198,6 +1378,7 @@ func (s *c09Store) loadPristine(r *hx.Result) error {
 		return err
 	}
 	s.txLogSz = int64(len(tb))
+	s.txLogBytes = tb
 	// (2) content through the real API on a copy
 	work := hx.TempDir("c09p")
 	defer os.RemoveAll(work)
@@ -1238,6 +1419,26 @@ func (s *c09Store) loadPristine(r *hx.Result) error {
 		}
 		alh := h.Alh()
 		t.Raw, t.Fields = c09Layout(h, t.Entries, alh)
+		t.Hdr, t.Alh = c09HdrOf(h), alh
+		if !bytes.Equal(c09LayoutRaw(t.Hdr, t.Entries, alh), t.Raw) {
+			st.Close()
+			return fmt.Errorf("tx %d: raw re-serialisation differs from the field layout (harness defect)", id)
+		}
+		s.checkCommitted(r, id, tx)
+		if int(id) <= len(s.committed) {
+			c := s.committed[id-1]
+			if c.Ground {
+				r.Count("grind.content-chosen")
+			}
+			if c.Predicted {
+				r.Count("grind.alh-predicted")
+			} else {
+				r.Count("grind.alh-not-predicted")
+			}
+			if alh[31] == 0 {
+				r.Count(fmt.Sprintf("grind.alh-ends-with-00.v%d", h.Version))
+			}
+		}
 		t.Summary = c09Summary(tx, alh)
 		if t.Size != len(t.Raw) || t.Off+int64(t.Size) > int64(len(tb)) || !bytes.Equal(tb[t.Off:t.Off+int64(t.Size)], t.Raw) {
 			st.Close()
@@ -1296,6 +1497,7 @@ func (s *c09Store) loadPristine(r *hx.Result) error {
 	}
 	// content of every key at every tx (for Get answers of a partially rebuilt index)
 	s.base = base
+	s.checkCommittedValues(r)
 	return nil
 }
 
@@ -1311,7 +1513,7 @@ func (s *c09Store) keyAt(key []byte, tx uint64) (string, bool) {
 			if v == nil {
 				return "", false
 			}
-			return fmt.Sprintf("%s|%s|%s", v.Val, hx.Hex(e.Md), hx.Hex(e.HVal[:])), true
+			return fmt.Sprintf("%s|%s|%s", v.Val, c09MdStrBytes(e.Md), hx.Hex(e.HVal[:])), true
 		}
 	}
 	return "", false
@@ -1529,7 +1731,10 @@ var c09Budget struct {
 	skipHuge         bool // the huge-allocation finding has been exercised: skip value reads believing > c09GuardVLen
 	noExportAfterErr bool // the ExportTx deadlock has been confirmed: no ExportTx after an ExportTx error on the same instance
 	hangs            int
+	hugeComp         int  // probes of compressed configurations in which a multi-GiB allocation from a length prefix was seen
 }
+
+const c09MaxHugeComp = 6
 
 const c09Stall = 10 * time.Second
 
@@ -1581,6 +1786,16 @@ func (cr *c09Runner) runV(m c09Mut, withIndex bool, pv c09Variant) {
 		r.Count("field." + f)
 	}
 	plan := c09Plan{n: s.n, keys: s.keys, pairs: s.pairs, withIndex: withIndex, skipHuge: c09Budget.skipHuge, noExportAfterErr: c09Budget.noExportAfterErr, pv: pv}
+	if s.cfg.Comp != appendable.NoCompression && c09Budget.hugeComp >= c09MaxHugeComp {
+		plan.skipGrown, plan.pristVLen, plan.pristVOff = true, map[uint64][]int{}, map[uint64][]int64{}
+		for id := uint64(1); id <= s.n; id++ {
+			for _, e := range s.txs[id].Entries {
+				plan.pristVLen[id] = append(plan.pristVLen[id], e.VLen)
+				plan.pristVOff[id] = append(plan.pristVOff[id], e.VOff)
+			}
+		}
+		r.Count("variant.skip-relocated-values-on-compressed-logs")
+	}
 	q := pv.seq()
 	r.Count(fmt.Sprintf("variant.vcache.%d", pv.VCache))
 	r.Count(fmt.Sprintf("variant.txcache.%d", pv.TxCache))
@@ -1614,6 +1829,14 @@ func (cr *c09Runner) runV(m c09Mut, withIndex bool, pv c09Variant) {
 		c09Budget.skipHuge = true
 	}
 	det, harm := s.judge(r, got, hang, m, pv)
+	if got != nil && s.cfg.Comp != appendable.NoCompression {
+		for _, k := range got.order {
+			if res := got.m[k]; res.Alloc > c09HugeAlloc && res.VLen <= c09GuardVLen {
+				c09Budget.hugeComp++
+				break
+			}
+		}
+	}
 	nontrivial := det > 0
 	r.Eval(fmt.Sprintf("%s/%s/%v/%s", s.cfg.Name, m.Kind, m.Patches, pv), nontrivial)
 	if got != nil && (cr.cases%97 == 5 || strings.HasPrefix(m.Kind, "f6.")) {
@@ -1651,6 +1874,9 @@ func (cr *c09Runner) runV(m c09Mut, withIndex bool, pv c09Variant) {
 	// ---- tie to the Lean model
 	if m.Tx > 0 {
 		cr.corrParse(dst, got, uint64(m.Tx))
+	}
+	if m.Alt != nil {
+		cr.corrDigest(m.Alt)
 	}
 	if s.cfg.Comp == appendable.NoCompression {
 		cr.corrValues(dst, got, m, pv)
@@ -2199,11 +2425,11 @@ func c09RunCfg(r *hx.Result, rng *hx.Rng, cfg c09Cfg, thorough bool, budget time
 	work := hx.TempDir("c09")
 	defer os.RemoveAll(work)
 	s := &c09Store{cfg: cfg, dir: filepath.Join(work, "pristine")}
-	n, keys, err := c09Build(rng.Fork(), cfg, s.dir)
+	n, keys, committed, err := c09Build(rng.Fork(), cfg, s.dir)
 	if err != nil {
 		return fmt.Errorf("%s: build: %w", cfg.Name, err)
 	}
-	s.n, s.keys = n, keys
+	s.n, s.keys, s.committed = n, keys, committed
 	tBuild := time.Since(start)
 	r.NextCase()
 	if err := s.loadPristine(r); err != nil {
@@ -2241,6 +2467,18 @@ func c09RunCfg(r *hx.Result, rng *hx.Rng, cfg c09Cfg, thorough bool, budget time
 			tm[cfg.Name+".targeted"] = d.Seconds()
 		}
 	}(time.Since(t0))
+	// (1b) structure-aware alterations: records re-serialised with one grammar element inserted / removed / replaced,
+	// all length fields consistent, no hash recomputed (c09restruct.go); every class once, then within a budget of its own
+	t1 := time.Now()
+	cr.restructPhase(rng.Fork(), budget/5)
+	if err := r.Flush(); err != nil {
+		return err
+	}
+	defer func(d time.Duration) {
+		if tm, ok := r.Extra["timing_s"].(map[string]float64); ok {
+			tm[cfg.Name+".restruct"] = d.Seconds()
+		}
+	}(time.Since(t1))
 	start = time.Now()
 
 	// (2) systematic stream, round-robin over the records so that a budget cut keeps all records covered
@@ -2557,11 +2795,11 @@ func c09Replay(r *hx.Result, path string) error {
 		work := hx.TempDir("c09r")
 		defer os.RemoveAll(work)
 		s := &c09Store{cfg: cfg, dir: filepath.Join(work, "pristine")}
-		n, keys, err := c09Build(fr.Fork(), cfg, s.dir)
+		n, keys, committed, err := c09Build(fr.Fork(), cfg, s.dir)
 		if err != nil {
 			return err
 		}
-		s.n, s.keys = n, keys
+		s.n, s.keys, s.committed = n, keys, committed
 		r.NextCase()
 		if err := s.loadPristine(r); err != nil {
 			return err
@@ -2578,11 +2816,14 @@ func c09Replay(r *hx.Result, path string) error {
 }
 
 func runC09(r *hx.Result, rng *hx.Rng, thorough bool, replay string) error {
-	r.Rule = "cases: one case = one altered copy of a real store directory (systematic: every field boundary ±1 bit, every length/offset/count/id field := 0/1/max/±1, vlog-id and offset variants of vOff, metadata overruns/unknown/non-canonical attributes, first/last/random byte of every value range, compressed-length prefixes; seeded random single- and multi-bit flips of tx and value logs; targeted F6/K2 probes), opened (value-log cache size 0/1/4/64 x tx-log cache size default/1) and read through Open, ReadTx, ReadValue, ReadTxHeader, ReadTxEntry, TxReader asc/desc, DualProof, index rebuild + Get, ExportTx in one of 11 read sequences (lenient skipIntegrityCheck=true accesses first / per tx / sandwiched between two checked passes; export-first; get-first). Non-trivial = at least one call noticed the alteration (returned an error); distinct by configuration + patch list."
+	r.Rule = "cases: one case = one altered copy of a real store directory (systematic: every field boundary ±1 bit, every length/offset/count/id field := 0/1/max/±1, vlog-id and offset variants of vOff, metadata overruns/unknown/non-canonical attributes, first/last/random byte of every value range, compressed-length prefixes; seeded random single- and multi-bit flips of tx and value logs; targeted F6/K2 probes; structure-aware re-serialisations of a record — header version 0 and 1 — with one grammar element (kv-metadata attribute(s), key byte, whole entry, tx metadata, header version) inserted / removed / replaced, all length and count fields consistent, no hash recomputed, the record shrinking / growing over what follows), opened (value-log cache size 0/1/4/64 x tx-log cache size default/1) and read through Open, ReadTx, ReadValue, ReadTxHeader, ReadTxEntry, TxReader asc/desc, DualProof, index rebuild + Get, ExportTx in one of 11 read sequences (lenient skipIntegrityCheck=true accesses first / per tx / sandwiched between two checked passes; export-first; get-first). Non-trivial = at least one call noticed the alteration (returned an error); distinct by configuration + patch list."
 	debug.SetMemoryLimit(24 << 30)
-	c09Budget.skipHuge, c09Budget.noExportAfterErr, c09Budget.hangs = false, false, 0
+	c09Budget.skipHuge, c09Budget.noExportAfterErr, c09Budget.hangs, c09Budget.hugeComp = false, false, 0, 0
+	c09SlowCalls = 0
 	if replay != "" {
-		return c09Replay(r, replay)
+		err := c09Replay(r, replay)
+		r.Extra["slow_calls_not_counted_as_hang"] = c09SlowCalls
+		return err
 	}
 	budget := 12 * time.Second
 	if thorough {
@@ -2593,6 +2834,7 @@ func runC09(r *hx.Result, rng *hx.Rng, thorough bool, replay string) error {
 			return err
 		}
 	}
+	r.Extra["slow_calls_not_counted_as_hang"] = c09SlowCalls
 	// a collapsed generator must not pass silently
 	need := []string{"tie.parse.ok", "tie.parse.err:txdata", "tie.parse.err:data", "tie.parse.err:maxkeylen", "tie.parse.err:maxentries",
 		"tie.parse.err:version", "tie.rv.ok", "tie.rv.err:data", "tie.rv.err:io", "outcome.Open.error.txdata", "outcome.ReadTx.pristine-content",
@@ -2600,7 +2842,18 @@ func runC09(r *hx.Result, rng *hx.Rng, thorough bool, replay string) error {
 		"outcome.ExportTx.error.data", "mutation.control.none", "mutation.random.tx.1bit", "mutation.random.val.1bit", "mutation.num.set",
 		"variant.lenient-export-then-checked-with-vcache", "variant.vcache.0", "variant.vcache.1", "variant.vcache.64", "variant.txcache.1",
 		"variant.seq.sandwich-export", "variant.seq.get-first", "variant.seq.export-first", "outcome.ReadValue#2.pristine-content",
-		"outcome.ReadValue#L.self-authentic", "outcome.ExportTx!skip.ok"}
+		"outcome.ReadValue#L.self-authentic", "outcome.ExportTx!skip.ok",
+		// structure-aware alterations: both header versions x every grammar element x insert / remove / replace
+		"pristine.tx.v0", "pristine.tx.v1", "committed.entry-compared",
+		"restruct.class.v0/kvmd.insert.del", "restruct.class.v0/kvmd.insert.exp", "restruct.class.v0/kvmd.insert.nonidx",
+		"restruct.class.v0/kvmd.insert.combo", "restruct.class.v0/kvmd.insert.noncanon", "restruct.class.v0/key.insert",
+		"restruct.class.v0/key.remove", "restruct.class.v0/entry.insert", "restruct.class.v0/entry.remove", "restruct.class.v0/version.replace",
+		"restruct.class.v1/kvmd.insert.del", "restruct.class.v1/kvmd.insert.exp", "restruct.class.v1/kvmd.insert.nonidx",
+		"restruct.class.v1/kvmd.remove", "restruct.class.v1/kvmd.replace", "restruct.class.v1/key.insert", "restruct.class.v1/key.remove",
+		"restruct.class.v1/entry.insert", "restruct.class.v1/entry.remove", "restruct.class.v1/entry.replace",
+		"restruct.class.v1/txmd.insert", "restruct.class.v1/txmd.remove", "restruct.class.v1/txmd.replace", "restruct.class.v1/version.replace",
+		"restruct.tail.shorter", "restruct.tail.longer-overwrites-next", "restruct.inside-committed-extent.v0", "restruct.inside-committed-extent.v1",
+		"tie.dg.v0.no-md.ok", "tie.dg.v0.md.err:mdunsupported", "tie.dg.v1.md.ok", "tie.dg.v1.no-md.ok", "outcome.ReadTx.error.mdunsupported"}
 	for _, k := range need {
 		if r.Distribution[k] == 0 {
 			r.Inconclusive = append(r.Inconclusive, "generator collapse: no case with "+k)
